@@ -171,7 +171,7 @@ def run_exec(prog: Program, knobs: Knobs, choices: Choices, opts: DOpts | None,
         ex.submit()
         if setup is not None:
             setup(ex)
-        res = ex.run(max_steps=max_steps)
+        res = ex.run(max_steps=max_steps, on_crash=getattr(ex, "on_crash_hook", None), sweeps=getattr(ex, "sweeps", 1))
         fs, h = ex.finish()
         w = ex.world
         return {"fs": fs, "h": h, "res": res, "quiescent": res.quiescent, "counts": ledger_counts(w),
@@ -222,7 +222,7 @@ def compare_outcome(prog: Program, ref: dict[str, Any], run: dict[str, Any]) -> 
     fs0, fs = ref["fs"], run["fs"]
     status_racy, view_racy = racy_sets(prog, fs0)
     if fs["wf_status"] != fs0["wf_status"]:
-        problems.append(("workflow-status-differs",
+        problems.append((f"workflow-status-differs:{fs0['wf_status']}->{fs['wf_status']}",
                          f"workflow ended {fs['wf_status']}, in-order exactly-once run ends {fs0['wf_status']}; "
                          f"stages={ {k: v['status'] for k, v in fs['stages'].items()} }"))
     diff = {}
@@ -234,7 +234,8 @@ def compare_outcome(prog: Program, ref: dict[str, Any], run: dict[str, Any]) -> 
         if a != b:
             diff[k] = (a, b)
     if diff:
-        problems.append(("stage-status-differs", f"stage statuses (reference, this run) differ: {diff}"))
+        kinds = ",".join(sorted({f"{a}->{b}" for a, b in diff.values()}))
+        problems.append(("stage-status-differs:" + kinds, f"stage statuses (reference, this run) differ: {diff}"))
     for t, vset in sorted(run["views"].items()):
         top = t.split("_")[1] if t.count("_") >= 2 else t
         if top in view_racy or top in status_racy:
